@@ -314,7 +314,9 @@ func (g *gen) authReply() replySpec {
 
 func (g *gen) failReply(ms []rscp.Message) replySpec {
 	items := encItems(ms)
-	switch g.pick(9) {
+	switch g.pick(10) {
+	case 9:
+		return replySpec{behaviour{kind: "badCrcOnce", items: items, once: new(int)}, "P invalidCrc 0"}
 	case 8:
 		return replySpec{behaviour{kind: "late", items: items, after: make(chan struct{})}, "X"}
 	case 0:
@@ -467,7 +469,7 @@ func init() {
 				// a reply with a wrong checksum is never handed to the caller, whatever the client's own checksum option
 				if strings.HasPrefix(r, "ok ") && c.kind != "D" {
 					authedNow := strings.Contains(r, fmt.Sprintf("[ M %d ", s.authTag))
-					if c.user.beh.kind == "badCrc" || (authedNow && c.auth.beh.kind == "badCrc") {
+					if c.user.beh.kind == "badCrc" || c.user.beh.kind == "badCrcOnce" || (authedNow && (c.auth.beh.kind == "badCrc" || c.auth.beh.kind == "badCrcOnce")) {
 						addVerdict(&prop, "FAIL C08 a call whose reply carried a wrong checksum returns success: "+trunc(r, 120)+" ;; FAIL C04 a reply with a wrong checksum is accepted")
 					}
 				}
